@@ -690,14 +690,32 @@ class OpsMixin:
         self.ev("op_ret", "stop", pr.idx, tuple(got))
         pr.stop_calls += 1
         if unknown:
-            # ids cancelled before their first step may or may not still be listed as running;
-            # remove them from the comparison (their fate is C02's business)
-            got_cmp = [g for g in got if g not in unknown]
+            # Tasks cancelled before their first step may or may not still be listed as running (they leave at their first step).
             self.sit["C14.with_unobservable"] += 1
-            if len(got_cmp) != len(got):
-                for tid in got_cmp:
-                    self.deliver_cancel(pr.tasks[tid], issuer, "stop")
-                return
+            clause = "C14.stop_all" if allmode else "C14.ids"
+            alien = [g for g in got if g not in running and g not in unknown]
+            if alien:
+                self.violate(clause, f"stop returned ids {alien} that are not running (running {running}, cancelled before first step {unknown})")
+            if list(got) != sorted(got, reverse=True):
+                self.violate(clause, f"stop returned {list(got)}: not newest first")
+            got_def = [g for g in got if g in running]
+            if got_def != running[: len(got_def)]:
+                self.violate(clause, f"stop returned {list(got)}: among the started tasks it must take the newest ones first (running, newest first: {running})")
+            if allmode:
+                missing = [r_ for r_ in running if r_ not in got]
+                if missing:
+                    self.violate("C14.stop_all", f"stop_all() returned {list(got)} and left the running tasks {missing} alone (cancelled before first step: {unknown})")
+            else:
+                if len(got) > max(n, 0):
+                    self.violate("C14.ids", f"stop({n}) returned {len(got)} ids")
+                if len(got) < min(max(n, 0), len(running)):
+                    self.violate("C14.ids", f"stop({n}) returned only {list(got)} although {len(running)} started tasks are running: {running}")
+            for tid in got_def:
+                self.deliver_cancel(pr.tasks[tid], issuer, "stop")
+            for tid in got:
+                if tid in unknown:
+                    pr.tasks[tid].vias.add("stop")
+            return
         exp = running[: max(n, 0)]
         if list(got) != exp:
             clause = "C14.stop_all" if allmode else ("C14.nonpositive" if n <= 0 else "C14.ids")
@@ -724,9 +742,31 @@ class OpsMixin:
     # ------------------------------------------------------------ flush
     def start_flush(self, step, issuer):
         pr = self.pools[step["pool"]]
-        self.bgk.append(("flush", pr, asyncio.ensure_future(self._flush(pr, step.get("rex", False), step.get("rex_explicit", True)))))
+        holder = {}
+        task = asyncio.ensure_future(self._flush(pr, step.get("rex", False), step.get("rex_explicit", True), holder))
+        self.bgk.append(("flush", pr, task))
+        if step.get("abandon") is not None:
+            self.bg.append(asyncio.ensure_future(self._abandon_flush(pr, task, holder, step["abandon"])))
 
-    async def _flush(self, pr, rex, explicit=True):
+    async def _abandon_flush(self, pr, task, holder, after):
+        """The caller of flush() gives up (e.g. wait_for timeout): asyncio cancels the flush, and gather() passes the
+        cancellation on to the tasks it was waiting for - i.e. into their still running cancel / end callbacks."""
+        for _ in range(after):
+            await asyncio.sleep(0)
+        f = holder.get("f")
+        if task.done() or f is None or f.done:
+            return
+        f.abandoned = True
+        # flush takes its snapshot of the tasks to gather only after its first wait, so any task that is inside its
+        # callbacks right now may be among them and may get the cancellation passed on by gather()
+        for t in pr.tasks.values():
+            if not t.complete and (t.finished or t.ccb or t.ecb or t.unbegun_cancelled):
+                t.extra_ok += 1
+        self.ev("flush_abandon", pr.idx)
+        self.sit["flush_abandoned"] += 1
+        task.cancel()
+
+    async def _flush(self, pr, rex, explicit=True, holder=None):
         must = {tid for tid, t in pr.tasks.items() if t.complete and t.forget != "forgotten"}
         live = {tid for tid, t in pr.tasks.items() if not t.complete}
         f = FlushRec(pr, rex, len(self.log), must, live)
@@ -735,6 +775,9 @@ class OpsMixin:
         for t in pr.tasks.values():
             if t.done_unknown and t.forget == "kept":
                 t.forget = "maybe"
+        f.in_cb_at_call = {tid for tid, t in pr.tasks.items() if not t.complete and (t.finished or t.ccb or t.ecb or t.unbegun_cancelled)}
+        if holder is not None:
+            holder["f"] = f
         pr.flushes.append(f)
         h0 = self.loop.vf_handle_no
         self.ev("flush_call", pr.idx, rex)
